@@ -77,6 +77,8 @@ type v16Run struct {
 	lastKillKind     string
 	lastKillAt       time.Time
 	exhausted        bool
+	curID            string // server-side id ("gen<N>") of the current connection
+	blockedFreed     bool   // the last call blocked and the harness freed a stream slot meanwhile
 }
 
 func v16NewRun(tb v16TB) *v16Run {
@@ -115,6 +117,26 @@ func (r *v16Run) dropHeld(all bool) {
 		}
 	}
 	r.held = keep
+}
+
+func (r *v16Run) liveHeldCount() int {
+	n := 0
+	for _, h := range r.held {
+		if h.gen == r.count {
+			n++
+		}
+	}
+	return n
+}
+
+func (r *v16Run) unhold(h *v16Held) {
+	_ = h.c.Close()
+	for i, x := range r.held {
+		if x == h {
+			r.held = append(r.held[:i], r.held[i+1:]...)
+			break
+		}
+	}
 }
 
 func (r *v16Run) liveHeld() *v16Held {
@@ -229,6 +251,7 @@ func (r *v16Run) checkConnected(pre, post v16Snap, what string) {
 	}
 	r.count++
 	r.conn = v16Alive
+	r.curID = lastAuth
 	r.exhausted = false
 	if r.count > 1 {
 		r.reconnects++
@@ -260,8 +283,21 @@ func (r *v16Run) expectAttemptFailure() string {
 
 // call performs one TCP()/UDP() call and judges it against the model.
 // It returns the result when the call succeeded.
-func (r *v16Run) call(kind string) (v16CallRes, bool) {
+func (r *v16Run) call(kind string) (v16CallRes, bool) { return r.callPatient(kind, 0) }
+
+// callPatient: like call, but if the call is still blocked after freeAfter the
+// harness closes one held stream of the current connection (an implementation
+// may legitimately wait for a free stream slot instead of failing at once).
+func (r *v16Run) callPatient(kind string, freeAfter time.Duration) (v16CallRes, bool) {
 	e := r.e
+	r.blockedFreed = false
+	onBlock := func() {
+		if h := r.liveHeld(); h != nil {
+			r.blockedFreed = true
+			e.logf("   call blocked for %v: harness frees one held stream", freeAfter)
+			r.unhold(h)
+		}
+	}
 	stateBefore := r.conn
 	mustFail := ""
 	if !r.closed && r.conn == v16None {
@@ -272,7 +308,7 @@ func (r *v16Run) call(kind string) (v16CallRes, bool) {
 	}
 	pre := e.snap()
 	t0 := time.Now()
-	res := v16Invoke(e.rc, kind)
+	res := v16InvokeEx(e.rc, kind, freeAfter, onBlock)
 	dur := time.Since(t0)
 	post := e.snap()
 	e.logf("   %s() -> %s  (%.0f ms; configFunc +%d, New +%d, connected +%d)", kind, v16ErrStr(res.err), float64(dur.Milliseconds()), post.cfg-pre.cfg, post.news-pre.news, post.conn-pre.conn)
@@ -352,8 +388,22 @@ func (r *v16Run) call(kind string) (v16CallRes, bool) {
 			if limitErr {
 				r.failf("%s() hit the stream limit (a recoverable error) but reported it as a closed connection: %s", kind, v16ErrStr(res.err))
 			}
-			// the harness did not kill this connection: environment (e.g. starved for
-			// longer than the idle timeout). Sound reaction: treat as a detected loss.
+			// The harness did not kill this connection. Was it lost at all? Ask the
+			// server: if it saw the *client* close a live connection (peer close with
+			// the client's normal code), the connection was healthy and the client
+			// treated some other error as a connection loss and tore it down.
+			if healthy, how := e.clientTornDownHealthy(r.curID); healthy {
+				ctx := ""
+				if n := r.liveHeldCount(); n > 0 || r.exhausted {
+					ctx = fmt.Sprintf(" while the harness held %d proxied streams open on it (server stream limit %d): stream limit reached on a healthy connection was treated as connection loss (reconnect triggered)", n, v16MaxStreams)
+				}
+				r.failf("%s() on a healthy connection returned %s and the client tore the connection down%s; proof of health: the server saw the connection %q end only by the client's own close: %s",
+					kind, v16ErrStr(res.err), ctx, r.curID, how)
+			} else {
+				e.logf("   connection %q was really lost (environment): server says %s", r.curID, how)
+			}
+			// environment (e.g. starved for longer than the idle timeout).
+			// Sound reaction: treat as a detected loss.
 			r.class("spurious-loss")
 			r.conn = v16None
 			r.dropHeld(false)
@@ -553,21 +603,34 @@ func (r *v16Run) opRelease() {
 }
 
 // opExhaust: precondition conn == alive. Hold proxied streams open until the
-// server's stream limit (8) is hit: the call must report the stream limit as
-// such, must not reconnect, and after freeing one stream a call must succeed on
-// the same connection.
-func (r *v16Run) opExhaust() {
-	r.op("exhaustStreams")
+// server's stream limit (8) is reached. The harness did not kill the connection
+// and the held streams keep it demonstrably busy, so whatever the call does at
+// the limit, it must not be treated as a connection loss. Accepted behaviours:
+//   - the call returns the stream-limit error as such (and after one stream is
+//     freed a later call succeeds on the same connection), or
+//   - a patient implementation blocks; the harness frees one held stream after
+//     freeAfter and the call then succeeds on the same connection.
+//
+// Never a ClosedError, never a reconnect (call() proves the health of the
+// connection from the server's Disconnect record before calling it a violation).
+func (r *v16Run) opExhaust(freeAfter time.Duration) {
+	r.op("exhaustStreams(freeIfBlockedFor=%v)", freeAfter)
 	gen := r.count
-	hit := false
+	lost := func(res v16CallRes, ok bool) bool {
+		if r.conn == v16Alive && r.count == gen {
+			return false
+		}
+		if ok {
+			_ = res.tcp.Close()
+		}
+		r.e.logf("   connection lost while exhausting streams (environment)")
+		r.quiescent()
+		return true
+	}
+	hit, patient := false, false
 	for i := 0; i < 6*v16MaxStreams; i++ {
-		res, ok := r.call("tcp")
-		if r.conn != v16Alive || r.count != gen {
-			if ok {
-				_ = res.tcp.Close()
-			}
-			r.e.logf("   connection lost while exhausting streams (environment)")
-			r.quiescent()
+		res, ok := r.callPatient("tcp", freeAfter)
+		if lost(res, ok) {
 			return
 		}
 		if ok {
@@ -575,44 +638,43 @@ func (r *v16Run) opExhaust() {
 				vInconclusive("C16: echo over an established proxied stream failed: " + err.Error())
 			}
 			r.held = append(r.held, &v16Held{c: res.tcp, tcp: res.tcp, gen: r.count})
+			if r.blockedFreed {
+				patient = true // blocked at the limit, served on the same connection once a slot was free
+				break
+			}
 			continue
 		}
 		hit = true // call() accepted the error: it is a stream limit reported as such, without reconnect
 		break
 	}
-	if !hit {
-		vInconclusive(fmt.Sprintf("C16: %d proxied streams held open and the server's stream limit (%d) was never reported", len(r.held), v16MaxStreams))
+	if !hit && !patient {
+		vInconclusive(fmt.Sprintf("C16: %d proxied streams held open and the server's stream limit (%d) was never reached", len(r.held), v16MaxStreams))
+	}
+	if patient {
+		r.class("exhaust:blocked-then-served-on-same-connection")
+		r.class("exhaust:recovered-on-same-connection")
+		r.quiescent()
+		return
 	}
 	r.class("exhaust:limit-hit")
 	r.exhausted = true
 	// a second call while exhausted: still the limit, still the same connection
-	if res, ok := r.call("tcp"); ok {
-		_ = res.tcp.Close() // the server may have granted credit meanwhile; fine
-	}
-	if r.conn != v16Alive || r.count != gen {
-		r.quiescent()
+	res, ok := r.callPatient("tcp", freeAfter)
+	if lost(res, ok) {
 		return
 	}
+	if ok {
+		_ = res.tcp.Close() // the server may have granted credit meanwhile; fine
+	}
 	// free one stream, then a call must eventually succeed on the same connection
-	h := r.liveHeld()
-	if h != nil {
-		_ = h.c.Close()
-		for i, x := range r.held {
-			if x == h {
-				r.held = append(r.held[:i], r.held[i+1:]...)
-				break
-			}
-		}
+	if h := r.liveHeld(); h != nil {
+		r.unhold(h)
 	}
 	r.e.logf("   freed one held stream")
 	deadline := time.Now().Add(30 * time.Second)
 	for {
 		res, ok := r.call("tcp")
-		if r.conn != v16Alive || r.count != gen {
-			if ok {
-				_ = res.tcp.Close()
-			}
-			r.quiescent()
+		if lost(res, ok) {
 			return
 		}
 		if ok {
@@ -621,6 +683,7 @@ func (r *v16Run) opExhaust() {
 			}
 			_ = res.tcp.Close()
 			r.class("exhaust:recovered-on-same-connection")
+			r.exhausted = false
 			break
 		}
 		if time.Now().After(deadline) {
@@ -763,7 +826,9 @@ func v16Step(rt *rapid.T, r *v16Run) {
 		}
 		r.opKill(k)
 	case "exhaust":
-		r.opExhaust()
+		// mostly "late" (longer than any sensible internal wait), sometimes soon
+		ms := rapid.SampledFrom([]int{300, 1000, 3000, 6000, 6000, 6000}).Draw(rt, "freeIfBlockedForMs")
+		r.opExhaust(time.Duration(ms) * time.Millisecond)
 	case "serverDown":
 		if r.conn == v16Alive && r.slowLeft < 1 {
 			r.opTCP(false) // noticing a vanished server costs an idle timeout: budget used up
@@ -868,7 +933,8 @@ func TestVerifC16_Regress_DeadClientSocketClosed(t *testing.T) {
 func TestVerifC16_Regress_StreamLimitRecoverable(t *testing.T) {
 	st := newVStats("TestVerifC16_Regress_StreamLimitRecoverable")
 	defer st.Flush()
-	for _, fastOpen := range []bool{false, true} {
+	for i, fastOpen := range []bool{false, true} {
+		freeAfter := []time.Duration{6 * time.Second, 3 * time.Second}[i]
 		r := v16NewRun(t)
 		func() {
 			defer r.e.teardown()
@@ -877,9 +943,9 @@ func TestVerifC16_Regress_StreamLimitRecoverable(t *testing.T) {
 			}()
 			r.start(false, fastOpen)
 			r.opTCP(true)
-			r.opExhaust()
+			r.opExhaust(freeAfter)
 			if !r.classes["exhaust:recovered-on-same-connection"] {
-				vInconclusive("C16: regression scenario did not reach the stream limit and recover")
+				vInconclusive("C16: regression scenario did not reach the stream limit and recover" + r.e.history())
 			}
 			if r.count != 1 {
 				r.failf("stream exhaustion led to %d connects", r.count)
